@@ -4,11 +4,12 @@
 -/
 import LyonVerif.Drive.Common
 import LyonVerif.Model.Geom.Basic
+import LyonVerif.Model.Geom.Length
 
 namespace Lyon.Drive.C10
 open Lyon Lyon.Drive
 
-variable {α : Type} [Scalar α] [Transc α] [Wire α]
+variable {α : Type} [Scalar α] [Transc α] [FlatConst α] [Wire α]
 
 structure Params (α : Type) where
   t : α
@@ -50,7 +51,8 @@ def seg (v : Array String) : String :=
     "tr_before", fSeg (s.beforeSplit p.t),
     "tr_after", fSeg (s.afterSplit p.t),
     "tr_range", fSeg (s.splitRange p.a p.b),
-    "tr_flip", fSeg s.flip ]
+    "tr_flip", fSeg s.flip,
+    "tr_len", fx (s.approximateLength (rd v 14 : α)) ]
 
 def quad (v : Array String) : String :=
   let s : Quad α := ⟨rdP v 0, rdP v 2, rdP v 4⟩
@@ -75,11 +77,14 @@ def quad (v : Array String) : String :=
     "tr_before", fQuad (s.beforeSplit p.t),
     "tr_after", fQuad (s.afterSplit p.t),
     "tr_range", fQuad (s.splitRange p.a p.b),
-    "tr_flip", fQuad s.flip ]
+    "tr_flip", fQuad s.flip,
+    "len", fx s.length, fx sp.1.length, fx sp.2.length,
+    "tr_len", fx (s.approximateLength (rd v 16 : α)) ]
 
 def cubic (v : Array String) : String :=
   let s : Cubic α := ⟨rdP v 0, rdP v 2, rdP v 4, rdP v 6⟩
   let p : Params α := rdParams v 8
+  let tolr : α := rd v 18
   let sp := s.split p.t
   unwords [
     "sample", fp (s.sample p.t),
@@ -100,11 +105,17 @@ def cubic (v : Array String) : String :=
     "tr_before", fCubic (s.beforeSplit p.t),
     "tr_after", fCubic (s.afterSplit p.t),
     "tr_range", fCubic (s.splitRange p.a p.b),
-    "tr_flip", fCubic s.flip ]
+    "tr_flip", fCubic s.flip,
+    "alen", toString (s.numQuadratics tolr), fx (s.approximateLength tolr),
+      fx (sp.1.approximateLength tolr), fx (sp.2.approximateLength tolr),
+    "tr_len", fx (s.approximateLength tolr) ]
+
+def arcFuel : Nat := 100000
 
 def arc (v : Array String) : String :=
   let s : Arc α := ⟨rdP v 0, rdP v 2, rd v 4, rd v 5, rd v 6⟩
   let p : Params α := rdParams v 7
+  let tolr : α := rd v 17
   let sp := s.split p.t
   let sm := s.sample p.t
   unwords [
@@ -118,7 +129,9 @@ def arc (v : Array String) : String :=
     "before", fArc (s.beforeSplit p.t),
     "after", fArc (s.afterSplit p.t),
     "tr", fp sm, fArc sp.1, fArc sp.2, fArc (s.beforeSplit p.t), fArc (s.afterSplit p.t),
-    fArc (s.splitRange p.a p.b), fArc s.flip ]
+    fArc (s.splitRange p.a p.b), fArc s.flip,
+    "alen", fx (s.approximateLength tolr arcFuel),
+    "tr_len", fx (s.approximateLength tolr arcFuel) ]
 
 def families : List Family := [
   ⟨"seg", seg (α := Float32), seg (α := Float)⟩,
